@@ -90,7 +90,7 @@ def poison_heap(value=np.nan, k=0):
     """Allocate and free arrays of many sizes filled with `value`: a later np.empty of such a size that is read before
     being written shows the garbage (NumPy's small-block cache and the allocator hand the blocks out again)."""
     keep = []
-    for size in list(range(1, 200, 3)) + [256, 300, 512, 600, 1024, 2048, 4096]:
-        for _ in range(1 + k % 3):
-            keep.append(np.full(size + (k % 5), value))
+    for size in list(range(1, 260)) + [300, 384, 512, 600, 768, 1024, 2048, 4096]:
+        for _ in range(1 + k % 2):
+            keep.append(np.full(size, value))
     del keep
